@@ -79,6 +79,224 @@ type verifC32Env struct {
 	connectData, subData []byte
 	rpcs     [][]byte
 	clientCh chan *Client
+	multi    *verifC32Multi
+}
+
+// verifC32Multi: state of a scenario with several concurrent connections on one channel.
+type verifC32Multi struct {
+	primary *Client
+	capt    map[*Client][][]byte
+	gate    chan struct{}
+}
+
+// verifC32Conn: one streaming connection whose body is read incrementally.
+type verifC32Conn struct {
+	kind   string
+	client *Client
+	status int
+	mu     sync.Mutex
+	buf    []byte
+	done   chan error
+}
+
+func (c *verifC32Conn) records() int {
+	c.mu.Lock()
+	defer c.mu.Unlock()
+	if c.kind == "sse" {
+		return bytes.Count(c.buf, []byte("\n\n"))
+	}
+	return bytes.Count(c.buf, []byte("\n"))
+}
+
+func (env *verifC32Env) dial(kind string) (*verifC32Conn, string) {
+	srv := env.hs
+	if kind == "sse" {
+		srv = env.sse
+	}
+	body := []byte(`{"id":1,"connect":{}}` + "\n" + `{"id":2,"subscribe":{"channel":"ch"}}`)
+	req, err := http.NewRequest(http.MethodPost, srv.URL, bytes.NewReader(body))
+	if err != nil {
+		return nil, "request: " + err.Error()
+	}
+	resp, err := (&http.Client{Timeout: 60 * time.Second}).Do(req)
+	if err != nil {
+		return nil, "do: " + err.Error()
+	}
+	conn := &verifC32Conn{kind: kind, status: resp.StatusCode, done: make(chan error, 1)}
+	go func() {
+		defer resp.Body.Close()
+		buf := make([]byte, 32*1024)
+		for {
+			n, err := resp.Body.Read(buf)
+			conn.mu.Lock()
+			conn.buf = append(conn.buf, buf[:n]...)
+			conn.mu.Unlock()
+			if err != nil {
+				if err == io.EOF {
+					err = nil
+				}
+				conn.done <- err
+				return
+			}
+		}
+	}()
+	select {
+	case conn.client = <-env.clientCh:
+	case <-time.After(20 * time.Second):
+		return nil, "no client connected"
+	}
+	return conn, ""
+}
+
+// runMulti: `multi c=<kind>,<kind>,… dc=<code> dr=<hex> s=pub:<hex>,…` — JSON connections (sse / hs-json)
+// subscribed to the same channel; the first one is the primary.  Every publication is delivered to
+// the primary's client first, then the secondaries are released (see the OnTransportWrite hook).
+// Output: `multi ;; <per-connection result like scn, plus t=<kind>> ;; …`.
+func (env *verifC32Env) runMulti(ws []string) string {
+	kv := map[string]string{}
+	for _, w := range ws {
+		if i := strings.IndexByte(w, '='); i > 0 {
+			kv[w[:i]] = w[i+1:]
+		}
+	}
+	kinds := strings.Split(kv["c"], ",")
+	dcode, err := strconv.ParseUint(kv["dc"], 10, 32)
+	dreason, ok := verifC32Unhex(kv["dr"])
+	if err != nil || !ok || len(kinds) < 2 {
+		return "bad-op"
+	}
+	var pubs [][]byte
+	if kv["s"] != "" && kv["s"] != "none" {
+		for _, st := range strings.Split(kv["s"], ",") {
+			parts := strings.SplitN(st, ":", 2)
+			if len(parts) != 2 || parts[0] != "pub" {
+				return "bad-op"
+			}
+			d, ok := verifC32Unhex(parts[1])
+			if !ok {
+				return "bad-op"
+			}
+			pubs = append(pubs, d)
+		}
+	}
+	node := env.node
+	if !verifC32Wait(func() bool { return node.Hub().NumClients() == 0 }, 20*time.Second) {
+		return "HARNESS-ERROR previous client still registered"
+	}
+	m := &verifC32Multi{capt: map[*Client][][]byte{}}
+	env.mu.Lock()
+	env.captured = nil
+	env.connectData, env.subData, env.rpcs = nil, nil, nil
+	env.multi = m
+	env.mu.Unlock()
+	defer func() {
+		env.mu.Lock()
+		env.multi = nil
+		env.mu.Unlock()
+	}()
+	for len(env.clientCh) > 0 {
+		<-env.clientCh
+	}
+	var conns []*verifC32Conn
+	closeAll := func() {
+		for _, c := range conns {
+			_ = c.client.close(Disconnect{Code: uint32(dcode), Reason: string(dreason)})
+		}
+	}
+	for i, k := range kinds {
+		if k != "sse" && k != "hs-json" {
+			closeAll()
+			return "bad-op"
+		}
+		c, e := env.dial(k)
+		if c == nil {
+			closeAll()
+			return "HARNESS-ERROR " + e
+		}
+		conns = append(conns, c)
+		if i == 0 {
+			env.mu.Lock()
+			m.primary = c.client
+			env.mu.Unlock()
+		}
+	}
+	count := func(c *verifC32Conn) int { env.mu.Lock(); defer env.mu.Unlock(); return len(m.capt[c.client]) }
+	if !verifC32Wait(func() bool {
+		for _, c := range conns {
+			if count(c) < 2 || c.records() < 2 {
+				return false
+			}
+		}
+		return node.Hub().NumSubscribers("ch") == len(conns)
+	}, 20*time.Second) {
+		closeAll()
+		return "HARNESS-ERROR connections not subscribed"
+	}
+	herr := ""
+	for i, d := range pubs {
+		gate := make(chan struct{})
+		env.mu.Lock()
+		m.gate = gate
+		env.mu.Unlock()
+		base := conns[0].records()
+		if _, err := node.Publish("ch", d); err != nil {
+			herr = "publish: " + err.Error()
+			close(gate)
+			break
+		}
+		if !verifC32Wait(func() bool { return conns[0].records() > base }, 20*time.Second) {
+			herr = "primary did not receive publication"
+			close(gate)
+			break
+		}
+		close(gate)
+		if !verifC32Wait(func() bool {
+			for _, c := range conns {
+				if count(c) < 3+i {
+					return false
+				}
+			}
+			return true
+		}, 20*time.Second) {
+			herr = "secondary did not get publication"
+			break
+		}
+	}
+	env.mu.Lock()
+	m.gate = nil
+	env.mu.Unlock()
+	closeAll()
+	out := []string{"multi"}
+	for _, c := range conns {
+		select {
+		case err := <-c.done:
+			if err != nil && herr == "" {
+				herr = "body read: " + err.Error()
+			}
+		case <-time.After(30 * time.Second):
+			if herr == "" {
+				herr = "body not finished"
+			}
+		}
+		env.mu.Lock()
+		msgs := make([]string, 0)
+		for _, mm := range m.capt[c.client] {
+			msgs = append(msgs, verifC32Hex(mm))
+		}
+		env.mu.Unlock()
+		ms := "none"
+		if len(msgs) > 0 {
+			ms = strings.Join(msgs, ",")
+		}
+		c.mu.Lock()
+		body := verifC32Hex(c.buf)
+		c.mu.Unlock()
+		out = append(out, fmt.Sprintf("status=%d t=%s exp=%d msgs=%s body=%s", c.status, c.kind, 2+len(pubs)+1, ms, body))
+	}
+	if herr != "" {
+		return "HARNESS-ERROR " + herr
+	}
+	return strings.Join(out, " ;; ")
 }
 
 func verifC32NewEnv() (*verifC32Env, error) {
@@ -88,12 +306,27 @@ func verifC32NewEnv() (*verifC32Env, error) {
 		return nil, err
 	}
 	env.node = node
-	node.OnTransportWrite(func(_ *Client, e TransportWriteEvent) bool {
-		cp := make([]byte, len(e.Data))
+	node.OnTransportWrite(func(c *Client, e TransportWriteEvent) bool {
+		cp := make([]byte, len(e.Data)) // the bytes as they are handed over, before anything else can touch them
 		copy(cp, e.Data)
 		env.mu.Lock()
 		env.captured = append(env.captured, cp)
+		var gate chan struct{}
+		if env.multi != nil {
+			env.multi.capt[c] = append(env.multi.capt[c], cp)
+			if c != env.multi.primary && e.Channel != "" {
+				gate = env.multi.gate
+			}
+		}
 		env.mu.Unlock()
+		if gate != nil {
+			// multi-connection scenarios: a secondary connection writes a publication only after the
+			// primary connection's client has received it (deterministic order of the shared frame's use)
+			select {
+			case <-gate:
+			case <-time.After(25 * time.Second):
+			}
+		}
 		return true
 	})
 	node.OnConnecting(func(context.Context, ConnectEvent) (ConnectReply, error) {
@@ -353,6 +586,10 @@ func TestVerifC32(t *testing.T) {
 		line := sc.Text()
 		if line == "" || strings.HasPrefix(line, "#") {
 			fmt.Fprintln(w, "#")
+			continue
+		}
+		if f := strings.Fields(line); len(f) > 1 && f[0] == "multi" {
+			fmt.Fprintln(w, env.runMulti(f[1:]))
 			continue
 		}
 		fmt.Fprintln(w, env.run(line))
